@@ -113,8 +113,10 @@ func (h *Session) findOrCreateHostWithLock(addr Addr) (host *Host, found bool) {
 	//optimise the common path
 	h.mutex.RLock()
 	if host, found = h.HostTable.Table[addr.IP]; found && bytes.Equal(host.MACEntry.MAC, addr.MAC) {
+		host.MACEntry.Row.Lock() // LastSeen is read by purge and the print functions under the row lock
 		host.LastSeen = now
 		host.MACEntry.LastSeen = now
+		host.MACEntry.Row.Unlock()
 		h.mutex.RUnlock()
 		return host, true
 	}
@@ -137,6 +139,8 @@ func (h *Session) findOrCreateHostWithLock(addr Addr) (host *Host, found bool) {
 	// this is new IP,
 	// create a new host and link to mac entry
 	macEntry := h.MACTable.findOrCreate(addr.MAC)
+	macEntry.Row.Lock() // the entry's fields and HostList are read under the row lock (notify, makeOffline, purge)
+	defer macEntry.Row.Unlock()
 	host = &Host{Addr: Addr{IP: addr.IP, MAC: macEntry.MAC}, MACEntry: macEntry, Online: false} // set to false to trigger Online transition
 	host.dirty = true
 	host.Manufacturer = FindManufacturer(macEntry.MAC)
